@@ -70,6 +70,7 @@ struct Runtime {
   long live_blocks;
   long alloc_errors;
   int lcd_count;
+  int lcd_quiet;         // 1: only out-of-row writes / bad cursor positions are logged (dumps still are)
   void *lcds[16];
   void (*lcd_dump_fn)(void *);
   int cur_pass;
